@@ -40,6 +40,32 @@ def run(ck, P):
     gl = guard_retvals(us, "(len > 0)", True)
     ck.ob("C16.1-GUARDS", us.site("len>0"), bool(gl) and all(g.retval == -22 for g in gl), "len == 0 -> %s" % [g.retval for g in gl])
 
+    # a stash that did not happen is not reported as one: what m_mod_stash returns on the enqueuing paths is the enqueue's own result
+    exst = rules.Expander(st, stable=False)
+    bound = [e for e in st.events() if e.kind in ("decl", "assign") and e.rhs is not None and strip(e.rhs).get("callee") == "m_queue_enqueue"]
+    bads = None
+    ns_ = 0
+    for path in st.paths():
+        evs = list(rules.path_events(st, path))
+        if not any(e in enq for e in evs):
+            continue
+        rets_ = [e for e in evs if e.kind == "ret" and e.e is not None]
+        if not rets_:
+            continue
+        ns_ += 1
+        rvx = exst.at(rets_[-1], rets_[-1].e)
+        if rvx.startswith("m_queue_enqueue(mod->stashed"):
+            continue
+        asm = rules.path_assumes(path)
+        names = [S(b_.lhs) for b_ in bound]
+        succeeded = any(asm.get(n_) is False or asm.get("(%s == 0)" % n_) is True for n_ in names)
+        if cval(rets_[-1].e) == 0 and not succeeded:
+            bads = path
+    ck.ob("C16.1-GUARDS", st.site("failed enqueue is reported"), bads is None and ns_ > 0,
+          "%d enqueuing path(s) return the enqueue's result (0 only when it succeeded)" % ns_ if bads is None else
+          "m_mod_stash returns 0 on a path where the enqueue into mod->stashed may have failed: the caller is told the event is stashed, a later unstash "
+          "hands back fewer events than were accepted", path=rules.fmt_path(st, bads) if bads else None)
+
     # ------------------------------------------------------------------ 2. trip count of the move loop
     ck.rule("C16.2-TRIPCOUNT", "R-TRIPCOUNT: in m_mod_unstash the loop that moves events from the stash into the delivery queue starts at the "
             "head of mod->stashed and, when more than `len` events are stashed, leaves after exactly `len` moves (affine solution of the exit "
